@@ -16,7 +16,7 @@ PROP = "C01"
 LEVEL = "exploration"
 RULE = (
     "Programs = library of 1-4 components + page built constructively by Hypothesis from text, variables, if/for/with, "
-    "slots (named/default/required/repeated, in loops, in slot defaults, inside fills, with slot data) and component tags "
+    "slots (named/default/required/repeated, name literal or from a with-/for-bound variable, in loops, in slot defaults, inside fills, with slot data) and component tags "
     "(no body / implicit body / named, conditional, with-wrapped, looped and dynamically-named fills, data= and default= aliases, `only`), "
     "with globally unique variable names; each rendered under context_behavior django and isolated and compared with the "
     "reference interpreter's text (expected TemplateSyntaxError for required-unfilled / two default slots / double fill / duplicate fill). "
@@ -29,7 +29,8 @@ ASSUMPTIONS = [
     "reference interpreter vf/gen/pg.py is the oracle (cross-checked against the repo's own slot tests during bring-up)",
     "django mode + `only`: visibility of tag-position variables inside fill content is not predicted (wildcard)",
     "the slot-default alias ({% fill default=... %}) is only printed, never iterated or passed on as a kwarg",
-    "fill bodies always contain at least one unconditional fill (a body whose fills all vanish is the implicit default fill)",
+    "a tag body whose fill tags all vanish at run time (all conditional) is the implicit default fill, as resolve_fills documents; 12% of the generated fill bodies have no unconditional fill",
+    "slot names given through a variable ({% slot nK %}) are with-bound literals or iterate over the characters of a literal",
 ]
 BOUNDS = {"quick": {"programs": 6400}, "thorough": {"programs": 60000}}
 
@@ -97,6 +98,8 @@ def check_program(case, col=None):
                 labels.append("slot_in_default")
             if st_["dynfill"]:
                 labels.append("dynamic_fill_name")
+            if st_["dynslot"]:
+                labels.append("dynamic_slot_name")
             if st_["condfill"]:
                 labels.append("conditional_fill")
             if st_["loops"]:
